@@ -36,6 +36,7 @@ GNext ==
   \/ \E t \in Trials : T_SuggestResume(t) /\ H([a |-> "T_SuggestResume", t |-> t])
   \/ T_SuggestNone /\ H([a |-> "T_SuggestNone"])
   \/ T_SuggestDone /\ H([a |-> "T_SuggestDone"])
+  \/ \E t \in Trials : T_SpecDelete(t) /\ H([a |-> "T_SpecDelete", t |-> t])
   \/ T_LoopEnd /\ H([a |-> "T_LoopEnd"])
   \/ T_StopAll /\ H([a |-> "T_StopAll"])
   \/ T_End /\ H([a |-> "T_End"])
